@@ -275,3 +275,161 @@ class _CurProxy:
 
     def __getattr__(self, n):
         return getattr(self._cur, n)
+
+
+# --------------------------------------------------------------------------------------------
+# ioerror@save: an OSError raised from the k-th operation of a *live* save (the process survives)
+
+import errno  # noqa: E402
+
+
+class Injector:
+    def __init__(self, fail_at=None):
+        self.fail_at = fail_at
+        self.n = 0
+        self.labels = []
+        self.fired = None
+
+    def point(self, label):
+        k = self.n
+        self.n += 1
+        self.labels.append(label)
+        if self.fail_at is not None and k == self.fail_at:
+            self.fired = label
+            raise OSError(errno.ENOSPC, f"No space left on device (injected at {label})")
+
+
+class _SeqFileProxy:
+    """wraps a file opened for writing in the checkpoint folder; every write and the close are fault points"""
+
+    def __init__(self, f, name, inj):
+        self._f = f
+        self._name = name
+        self._inj = inj
+        self._nw = 0
+        self._closed = False
+
+    def write(self, data):
+        self._inj.point(f"write:{self._name}" if self._nw == 0 else f"write-more:{self._name}")
+        self._nw += 1
+        return self._f.write(data)
+
+    def close(self):
+        if not self._closed:
+            self._closed = True
+            self._f.close()
+            self._inj.point(f"close:{self._name}")
+
+    def __enter__(self):
+        return self
+
+    def __exit__(self, *a):
+        self.close()
+        return False
+
+    def __iter__(self):
+        return iter(self._f)
+
+    def __getattr__(self, n):
+        return getattr(self._f, n)
+
+
+class _DatasetProxy:
+    def __init__(self, ds, inj):
+        self._ds = ds
+        self._inj = inj
+
+    @property
+    def shape(self):
+        return self._ds.shape
+
+    def resize(self, *a, **kw):
+        self._inj.point("h5:resize:before")
+        r = self._ds.resize(*a, **kw)
+        self._inj.point("h5:resize:after")
+        return r
+
+    def __setitem__(self, k, v):
+        self._inj.point("h5:setitem:before")
+        self._ds[k] = v
+        self._inj.point("h5:setitem:after")
+
+    def __getitem__(self, k):
+        return self._ds[k]
+
+    def __getattr__(self, n):
+        return getattr(self._ds, n)
+
+
+class _H5FileProxy:
+    def __init__(self, h, inj):
+        self._h = h
+        self._inj = inj
+
+    def __enter__(self):
+        return self
+
+    def __exit__(self, *a):
+        self._h.close()
+        if a[0] is None:
+            self._inj.point("h5:close")
+        return False
+
+    def close(self):
+        self._h.close()
+
+    def __getitem__(self, k):
+        return _DatasetProxy(self._h[k], self._inj)
+
+    def create_dataset(self, *a, **kw):
+        self._inj.point("h5:create:before")
+        d = self._h.create_dataset(*a, **kw)
+        self._inj.point("h5:create:after")
+        return _DatasetProxy(d, self._inj)
+
+    def __getattr__(self, n):
+        return getattr(self._h, n)
+
+
+class FaultySave:
+    """context manager: inside it, writes into `folder` go through fault points of `inj`"""
+
+    def __init__(self, folder, inj: Injector):
+        self.folder = str(Path(folder).resolve())
+        self.inj = inj
+        self.seams = Seams()
+
+    def __enter__(self):
+        import h5py
+        real_open = builtins.open
+        me = self
+
+        def faulty_open(file, mode="r", *a, **kw):
+            try:
+                p = str(Path(os.fspath(file)).resolve()) if not isinstance(file, int) else None
+            except TypeError:
+                p = None
+            if p is not None and p.startswith(me.folder + os.sep) and any(c in mode for c in "wax+"):
+                name = os.path.basename(p)
+                me.inj.point(f"open:{name}")
+                return _SeqFileProxy(real_open(file, mode, *a, **kw), name, me.inj)
+            return real_open(file, mode, *a, **kw)
+        self.seams.set_attr(builtins, "open", faulty_open)
+        self.seams.set_attr(io, "open", faulty_open)
+
+        class H5Shim:
+            def __getattr__(self2, n):
+                return getattr(h5py, n)
+
+            def File(self2, name, mode="r", **kw):  # noqa: N802
+                p = str(Path(os.fspath(name)).resolve())
+                if mode == "r" or not p.startswith(me.folder + os.sep):
+                    return h5py.File(name, mode=mode, **kw)
+                me.inj.point(f"h5:open:{mode}")
+                return _H5FileProxy(h5py.File(name, mode=mode, **kw), me.inj)
+        self.seams.replace_global("h5py", h5py, H5Shim())
+        return self
+
+    def __exit__(self, *exc):
+        self.seams.undo()
+        return False
